@@ -106,6 +106,9 @@ def op_menu(recs, lay):
         for off in sorted({0, 1, min(bounds[1] + 1, total)}):
             for ln in sorted({-1, 1, total}):
                 ops.append(['fetchpos', i, off, ln])
+    # requests the index may refuse however it likes (outside the statement): what follows them must still be exact
+    ops.append(['badfetch', len(recs), 0, -1])
+    ops.append(['badfetch', 0, -3, 2])
     ops.append(['seq'])
     ops.append(['reenter'])
     ops.append(['vrs'])
@@ -183,6 +186,12 @@ def step(system, op, check):
             return [({'kind': 'reenter_raises', 'exc': type(err).__name__}, '%s: %s' % (type(err).__name__, err))]
         return check_index(system) if check else []
     how, i, off, ln = op
+    if how == 'badfetch':
+        try:
+            system.index.get_file_logical_data(i, off, ln)
+        except Exception:  # noqa
+            pass
+        return []
     system.f.reset_log()
     try:
         if how == 'fetchpos':
